@@ -65,7 +65,8 @@ def fixed_datasets(rng, n=3):
 
 def compare_ev(ctx, driver, pairs: List[Tuple[Any, str, str]], ds_list: List[str], what: str, keyfn=None):
     """pairs: (case, original sexpr, transformed sexpr).  Violation when the original evaluates
-    without error on a dataset and the transformed one does not give the same value."""
+    without error on a dataset (deferred-execution semantics Fadl/SemLazy.lean; no deferred failure left
+    inside the value) and the transformed one does not give the same value."""
     reqs = []
     for _, a, b in pairs:
         for ds in ds_list:
@@ -80,7 +81,7 @@ def compare_ev(ctx, driver, pairs: List[Tuple[Any, str, str]], ds_list: List[str
         for k, ds in enumerate(ds_list):
             ra, rb = res[i], res[i + 1]
             i += 2
-            if ra[0] == "ok":
+            if ra[0] == "ok" and "(poison " not in ra[1]:
                 n_ok += 1
                 if rb != ra and bad is None:
                     bad = {"dataset": ds, "original_value": ra, "transformed_value": rb}
